@@ -369,6 +369,67 @@ class TransformedInfoQuery(Harness):
         return AND(ok, ux - gx <= px, gx - ux <= px, uy - gy <= py, gy - uy <= py)
 
 
+class AxisOrder(Harness):
+    """WMS 1.3.0 axis order: what goes out to a 1.3.0 upstream (GetMap and GetFeatureInfo) carries the rectangle in the axis
+    order of its CRS (north/east CRS: miny,minx,maxy,maxx), what comes in from a 1.3.0 client is switched to x/y order
+    internally, older versions never switch, and out(in(b)) == b.  The text codec of the BBOX parameter (','.join(str) /
+    float(split)) is replaced by an identity stub that stores the tuple, so the four numbers stay solver variables."""
+    modules = ['mapproxy.request.wms']
+    functions = ['WMS130MapRequest.adapt_params_to_version', 'WMS130MapRequest.adapt_to_111', 'WMS130FeatureInfoRequest.adapt_params_to_version',
+                 'WMS111MapRequest.adapt_params_to_version', 'switch_bbox_epsg_axis_order']
+
+    @classmethod
+    def build(cls, L, cfg):
+        m = L.mods['mapproxy.request.wms']
+
+        class Box(object):
+            def __init__(self, t):
+                self.t = tuple(t)
+
+        def _get(self):
+            v = self.params.get('bbox')
+            return v.t if isinstance(v, Box) else None
+
+        def _set(self, value):
+            self['bbox'] = Box(value) if value is not None else None
+        m.WMSMapRequestParams.bbox = property(_get, _set)
+        return dict(m=m)
+
+    @classmethod
+    def inputs(cls, ctx, cfg):
+        b = [real_var(n) for n in ('b0', 'b1', 'b2', 'b3')]
+        assume(AND(b[2] > b[0], b[3] > b[1]))
+        return dict(b=b)
+
+    @classmethod
+    def prop(cls, ctx, cfg, b):
+        m = ctx['m']
+        from mapproxy.srs import SRS
+        code = cfg['srs']
+        ne = SRS(code).is_axis_order_ne
+        swapped = (b[1], b[0], b[3], b[2])
+        plain = tuple(b)
+
+        def eq(t, want):
+            return AND(*[t[i] == want[i] for i in range(4)]) if t is not None and len(t) == 4 else False
+        ok = True
+        for klass, is130 in ((m.WMS130MapRequest, True), (m.WMS130FeatureInfoRequest, True), (m.WMS111MapRequest, False),
+                             (m.WMS111FeatureInfoRequest, False)):
+            req = klass(url='http://up/service?', param=dict(layers='a', x='1', y='2'))
+            req.params.bbox = plain
+            req.params.srs = code
+            out = req.adapt_params_to_version()
+            ok = AND(ok, eq(out.bbox, swapped if (is130 and ne) else plain))
+            # the request object itself is not changed by building the outgoing parameters
+            ok = AND(ok, eq(req.params.bbox, plain))
+        # incoming 1.3.0 request: the client's axis order becomes x/y
+        inc = m.WMS130MapRequest(url='http://mp/service?', param=dict(layers='a', crs=code))
+        inc.params.bbox = swapped if ne else plain
+        inc.adapt_to_111()
+        ok = AND(ok, eq(inc.params.bbox, plain))
+        return ok
+
+
 CANARIES = [
     ('mosaic rows pasted bottom-up', 'Mosaic', {'mapproxy.image.tile': [(
         "                i//self.tile_grid[0]*self.tile_size[1])", "                (len(range(self.tile_grid[1])) - 1 - i//self.tile_grid[0])*self.tile_size[1])")]},
@@ -417,6 +478,12 @@ def obligations(tier, seed):
         ficfgs += [dict(size=[17, 600], pixel=[3.0, 3.0], affine=[1.5, 1.5, 0.0, 0.0]), dict(size=[512, 100], pixel=[0.5, 2.0], affine=[111320.0, 110540.0, 0.0, 0.0])]
     for c in ficfgs:
         specs.append(spec(MOD, 'TransformedInfoQuery', 'feature-info-other-srs/%dx%d/pixel%sx%s/affine%s' % (c['size'][0], c['size'][1], c['pixel'][0], c['pixel'][1], c['affine'][:2]), cfg=c, cost=5))
+    for code in ('EPSG:4326', 'EPSG:3857', 'EPSG:31467', 'CRS:84') + (('EPSG:25832', 'EPSG:4258') if tier == 'thorough' else ()):
+        specs.append(spec(MOD, 'AxisOrder', 'wms130-axis-order/%s' % code, cfg=dict(srs=code), cost=2))
+    specs.append(spec(MOD, 'AxisOrder', 'twin/AxisOrder', kind='witness', cfg=dict(srs='EPSG:4326')))
+    specs.append(spec(MOD, 'AxisOrder', 'canary/1.3.0 map request sent in x/y order', kind='canary', cfg=dict(srs='EPSG:4326'),
+                      patches={'mapproxy.request.wms': [["        params = WMSMapRequest.adapt_params_to_version(self)\n        params.switch_bbox()\n        if 'srs' in params:",
+                                                         "        params = WMSMapRequest.adapt_params_to_version(self)\n        if 'srs' in params:"]]}))
     specs.append(spec(MOD, 'TransformedInfoQuery', 'twin/TransformedInfoQuery', kind='witness', cfg=ficfgs[0]))
     specs.append(spec(MOD, 'TransformedInfoQuery', 'canary/clicked row scaled with the column resolution', kind='canary', cfg=ficfgs[0],
                       patches={'mapproxy.client.wms': [["        req_coord = make_lin_transf((0, 0, query.size[0], query.size[1]), req_bbox)(query.pos)",
@@ -445,10 +512,10 @@ META = dict(
                 'one tile returns the tile object itself; (d) WMTS GetFeatureInfo uses the rectangle of the addressed tile '
                 '(north-west addressing on either grid origin), InfoQuery.coord lies inside the clicked pixel, and a same-SRS WMS '
                 'info client forwards bbox/size/pixel unchanged.',
-    functions=sorted(set(Mosaic.functions + TransformSimple.functions + SingleTile.functions + FeatureInfoPoint.functions + TransformedInfoQuery.functions)),
+    functions=sorted(set(Mosaic.functions + TransformSimple.functions + SingleTile.functions + FeatureInfoPoint.functions + TransformedInfoQuery.functions + AxisOrder.functions)),
     bounds='request rectangles up to 1.6 (thorough 2.5) tile spans; output/source resolutions within a factor 2; enumerated grids, levels and sizes',
     outside='reprojection between different SRS (pyproj FFI, transform_meshes error budget; the feature-info transfer to another SRS is checked with '
-            'the projection replaced by axis-aligned affine maps), PIL resampling kernels, WMS 1.3.0 axis-order switching, '
+            'the projection replaced by axis-aligned affine maps), PIL resampling kernels, the text codec of request parameters (WMS 1.3.0 axis-order switching is checked with the BBOX codec stubbed by identity), '
             'sub-extent placement in CacheMapLayer.get_map (bbox_position_in_image is executed under C17), upstream tile URL templates',
     assumptions=['PIL Image.crop(box) and Image.transform(size, EXTENT, data) box semantics (pixel centre sampling)', 'float as exact rational'],
     trusted_base=['z3 5.1', 'engine/symex.py'],
